@@ -41,6 +41,12 @@ CONSTANTS
 VARIABLES cfg, pred, phase
 vars == <<cfg, pred, phase>>
 
+\* physical magnitudes: field X is multiplied by 10^ex, field Y by 10^ey (mixing ratios next to pressures).
+\* A singular value w(s) of a field whitened with degree alpha scales with the alpha-th power of the factor, so
+\* the prediction is multiplied by 10^(ex*alpha_x + ey*alpha_y); alpha is kept in half units (0, 1, 2), hence
+\* scaleExp2 = ex*ax + ey*ay is TWICE the decimal exponent.  Everything else (correlations, fractions) is scale free.
+CexpPairs == { <<0, 0>>, <<-8, -8>>, <<6, -8>> }
+
 N == 16
 Sqrt(s) == CASE s = 1 -> 1 [] s = 4 -> 2 [] s = 9 -> 3 [] s = 16 -> 4 [] s = 25 -> 5
 \* whitened singular value for kappa = n = 16
@@ -86,7 +92,8 @@ Predict(c) ==
         wcovx16 |-> [i \in 1..RX(c) |-> WCovEig16(c.sx[i], AlphaOf(c.fam, c.alpha)[1])],
         gainx |-> [i \in 1..RX(c) |-> Gain(c.sx[i], AlphaOf(c.fam, c.alpha)[1])],
         wcovy16 |-> [j \in 1..RY(c) |-> WCovEig16(c.sy[j], AlphaOf(c.fam, c.alpha)[2])],
-        alpha  |-> AlphaOf(c.fam, c.alpha)]
+        alpha  |-> AlphaOf(c.fam, c.alpha),
+        scaleExp2 |-> c.cexp[1] * AlphaOf(c.fam, c.alpha)[1] + c.cexp[2] * AlphaOf(c.fam, c.alpha)[2]]
 
 Admissible(c) ==
     /\ Len(c.ovl) = RY(c)
@@ -95,13 +102,15 @@ Admissible(c) ==
     /\ c.wide => c.pca # "none"
     /\ RX(c) <= 7 /\ RY(c) <= 7
     /\ c.tlab # "same" => (c.pca = "none" /\ ~c.wide)        \* vary the labels on the plain configuration only
+    /\ c.cexp # <<0, 0>> => (c.pca = "none" /\ ~c.wide /\ c.tlab = "same" /\ c.dtype = "real")   \* and the magnitudes
 
 Init ==
     /\ phase = "cfg" /\ pred = [k |-> 0]
-    /\ \E sx \in SXs, sy \in SYs, ovl \in Overlaps, al \in Alphas, fam \in Fams, pca \in Pcas, dt \in Dtypes, wide \in Wides, tlab \in TLabs :
+    /\ \E sx \in SXs, sy \in SYs, ovl \in Overlaps, al \in Alphas, fam \in Fams, pca \in Pcas, dt \in Dtypes, wide \in Wides, tlab \in TLabs,
+         cexp \in CexpPairs :
          \E k \in 1..Len(sy) :
             /\ cfg = [sx |-> sx, sy |-> sy, ovl |-> ovl, alpha |-> al, fam |-> fam, pca |-> pca, dtype |-> dt,
-                      wide |-> wide, k |-> k, tlab |-> tlab]
+                      wide |-> wide, k |-> k, tlab |-> tlab, cexp |-> cexp]
             /\ Admissible(cfg)
 
 Fit == /\ phase = "cfg" /\ phase' = "done" /\ pred' = Predict(cfg) /\ UNCHANGED cfg
@@ -133,6 +142,12 @@ C09_FactorDependsOnNAlphaOnly ==
               (pred.c5[i] > 0 /\ pred.c5[j] > 0) =>
                  pred.sig75[i] * (PowNum(pred.sx[j], pred.alpha[1]) * PowNum(pred.sy[j], pred.alpha[2]) * pred.c5[j])
                = pred.sig75[j] * (PowNum(pred.sx[i], pred.alpha[1]) * PowNum(pred.sy[i], pred.alpha[2]) * pred.c5[i])
+
+\* C09: the magnitudes of the fields enter the singular values through the alpha-th powers only: a method that
+\* whitens both fields completely (alpha = 0) is blind to them, MCA (alpha = 1) scales with their product
+C09_ScaleEntersByAlphaPowers ==
+    Done => /\ (pred.alpha = <<0, 0>>) => pred.scaleExp2 = 0
+            /\ (pred.alpha = <<2, 2>>) => pred.scaleExp2 = 2 * (cfg.cexp[1] + cfg.cexp[2])
 
 \* C16: whitening with alpha = 0 gives the identity covariance, alpha = 1 leaves it
 \* unchanged, and the eigenvalues are the alpha-th powers in between
